@@ -82,10 +82,24 @@ func run(r *mon.Report, tier string, idx int, rng *rand.Rand) {
 	} else {
 		sigExtra = ""
 	}
+	var goneLater *corev1.Pod
+	if volumesOn && rng.Intn(3) == 0 {
+		var filler *corev1.Pod
+		if goneLater, filler = sharedVolumeHistory(rng, s); filler != nil {
+			batch = append(batch, filler)
+			r.Inc("shared_volume_histories")
+		}
+	}
 	if err := e.SyncState(); err != nil {
 		r.Inconcl("case %d: state sync error: %v", idx, err)
 		r.Eval()
 		return
+	}
+	if goneLater != nil {
+		// one of the two pods sharing a claim goes away; cluster state learns it from the pod event alone (the Node is
+		// not reconciled again before the scheduling pass)
+		_ = e.API.Raw.Delete(context.Background(), goneLater)
+		_ = e.Deliver(world.Request{Kind: "Pod", NS: goneLater.Namespace, Name: goneLater.Name})
 	}
 	originals := snapshotPods(e)
 	var res provscheduling.Results
